@@ -1,6 +1,7 @@
 /- line-protocol handlers for the C02 models -/
 import FontVerif.Model.Base
 import FontVerif.Model.Interp
+import FontVerif.Model.Composite
 namespace FontVerif.Drv.C02
 open FontVerif FontVerif.Interp
 
@@ -43,6 +44,25 @@ def interp (limFC limG cap nF nI : Nat) (font cv : List Nat) (glyph : Option (Li
         | .running => "running"
         | .done => "ok"
 
+/-! composite graphs -/
+open FontVerif.Composite in
+def parseGlyph (t : String) : Option GlyphInfo :=
+  match t.splitOn ":" with
+  | ["E"] => some .empty
+  | ["S", n, i] => (parseNat? n).map (fun n => .simple n 1 (i == "1"))
+  | ["C", cs] => ((cs.splitOn ".").mapM parseNat?).map (fun cs => .composite cs false)
+  | _ => none
+
+open FontVerif.Composite in
+/-- `composite <gid> <spec>`: `outline_glyphs().get(gid)` = `Outlines::outline(gid).ok()`, counters as reported by the
+    verif hook (points include the 4 phantom points added at the end of `outline`) -/
+def composite (gid : Nat) (gs : Array GlyphInfo) : String :=
+  let G : Nat → GlyphInfo := fun i => if h : i < gs.size then gs[i] else .readErr
+  match Composite.outline G gid with
+  | .error _ => "none"
+  | .ok o =>
+    s!"ok p={o.points + 4} c={o.contours} ms={o.maxSimple} mo={o.maxOther} ds={o.maxDeltaStack} h={if o.hasHinting then 1 else 0}"
+
 def handle (cmd : String) (args : List String) : Option String :=
   match cmd, args with
   | "interp", [a, b, cp, nf, ni, f, p, g] =>
@@ -53,6 +73,10 @@ def handle (cmd : String) (args : List String) : Option String :=
         | some g => some (interp a b cp nf ni f p (some g))
         | none => some "bad-args"
     | _, _, _, _, _, _, _ => some "bad-args"
+  | "composite", [g, spec] =>
+    match parseNat? g, (spec.splitOn ",").mapM parseGlyph with
+    | some g, some gs => some (composite g gs.toArray)
+    | _, _ => some "bad-args"
   | _, _ => none
 
 end FontVerif.Drv.C02
